@@ -9,13 +9,18 @@ equals c * A's and every variance c^2 * A's:
 * c = 2^k: bit-exact (all IEEE operations commute with a power-of-two scaling as long as no
   sub/supernormal range is touched: |k| <= 40, mu in [2.5e-8, 1], times <= ~1e20);
 * other c: relative tolerance 1e-6 plus the confirmation rule of DESIGN §4 (a mismatch must
-  persist for c(1 +- 2^-20)) and a tie test (the base run must itself be stable under the
-  factors 1 +- 2^-20), so that rounding ties at argmax / searchsorted / unique / phase<0.5
-  discontinuities are counted as discards, never as violations.
+  persist for six factors c(1 +- g 2^-20)) and a tie test (the base run must itself be stable
+  under sixteen generic factors 1 +- g 2^-20, see vt.oracle.equivar_c), so that rounding ties
+  at argmax / searchsorted / unique / phase<0.5 discontinuities are counted as discards, never
+  as violations.
 
-Calibration on the unchanged tree (4 x 1000 cases, seed 1, non-power-of-two factors): worst
-relative deviation seen 3.3e-10 for variational_gamma (Newton solves in rescaling), 5e-13 for
-the discrete methods; tolerance 1e-6 keeps a > 1000x margin. Power-of-two factors: 0 mismatches.
+Calibration on the unchanged tree (3 x 1500 cases, seeds 1-3; 2 600 non-power-of-two pairs):
+worst relative deviation 8.1e-8 for variational_gamma (Newton iterations in approx.py stop at a
+relative step of sqrt(eps) = 1.5e-8, amplified by the EP sweeps), 1.0e-11 for inside_outside,
+2.5e-15 for maximization; 99 % of pairs are below 1e-9. Tolerance 1e-6 as stated in the design;
+a pair above it that is not a genuine defect is unstable under the generic factors next to 1
+and is discarded by the tie test. Power-of-two factors: 1 900 pairs, 0 mismatches of any bit.
+First-stage mismatches (all rounding ties of rescaling with 2 or 5 intervals): ~0.6 % of cases.
 """
 
 import numpy as np
@@ -34,18 +39,18 @@ RULE = (
     "rescaling, root regularisation, max_shape, unphased singletons; eps, Ne as float / piecewise history / "
     "prior grid with 2..20 quantile or explicit timepoints, lognorm/gamma, log/linear space) x factor c "
     "(half 2^k with |k|<=40, half log-uniform in [1e-9,1e9]); non-trivial = input has >= 2 trees and "
-    ">= 3 mutations and both runs returned; distinct by SHA-1 of (tables, configuration, c)"
+    ">= 3 mutations and both runs returned (or the pair is reported as a violation); distinct by SHA-1 of (tables, configuration, c)"
 )
 ASSUMPTIONS = [
     "historical samples (variational_gamma only): the sample times of the input are times and are multiplied "
     "by c as well (the statement names only parameters; with unscaled sample ages the relation is false by "
-    "construction). 3/4 of variational cases and all discrete cases use contemporaneous samples, where the "
-    "statement applies literally; non-sample input times are left unscaled (dating ignores them)",
+    "construction). About 7/8 of variational cases and all discrete cases use contemporaneous samples, where "
+    "the statement applies literally and input node times are left unscaled (dating ignores them)",
     "a piecewise population-size history is scaled in both its sizes and its epoch breaks (both are times)",
     "eps and min_branch_length are always passed explicitly (defaults are absolute constants, outside the statement)",
     "both runs raising the same exception class counts as agreement and is discarded (e.g. F2 "
     "'Use fewer rescaling intervals', F1 bad node time ordering); which inputs may raise belongs to C35",
-    "non-power-of-two factors: tolerance 1e-6 with confirmation at c(1+-2^-20) and a tie test at 1+-2^-20; "
+    "non-power-of-two factors: tolerance 1e-6 with confirmation at six factors c(1+-g*2^-20) and a tie test at sixteen generic factors 1+-g*2^-20; "
     "cases with a singleton phase within 1e-9 of 0.5 are discarded for such factors",
     "numpy/tskit/msprime trusted",
 ]
@@ -87,12 +92,12 @@ def check(case, ctx):
     if verdict == "discard":
         ctx.discard(info)
         return []
+    if ts.num_trees >= 2 and ts.num_mutations >= 3:
+        ctx.mark_nontrivial()  # also for violations: the runner's too-few-cases test precedes its verdict
     if verdict == "violation":
         key, msg = info
         return [Violation(f"time_units:{method}:{key}", f"{method}, c={c!r} ({'2^k' if pow2 else 'real'}): {msg}",
                           cfg=E.describe_cfg(cfg))]
-    if ts.num_trees >= 2 and ts.num_mutations >= 3:
-        ctx.mark_nontrivial()
     if not pow2:
         r = info
         ctx.label("relerr:" + ("vg" if method == "variational_gamma" else "discrete") + ":" +
@@ -106,6 +111,11 @@ def finish(ctx, tier):
     for k in list(ctx.extra):
         if k.startswith("max_relerr_") and isinstance(ctx.extra[k], list):
             ctx.extra[k] = float(max(ctx.extra[k]))
+    # DESIGN §4: tie discards must stay rare, otherwise the generator sits on discontinuities and
+    # the run is inconclusive (harness error), not a pass
+    ties = sum(v for k, v in ctx.discards.items() if k.startswith("numerical tie"))
+    if ctx.evaluations >= 200 and ties > 0.02 * ctx.evaluations and not ctx.buckets:  # never mask a violation
+        ctx.harness_errors.append(f"{ties} numerical-tie discards in {ctx.evaluations} cases (> 2 %)")
 
 
 def describe(case):
